@@ -374,7 +374,7 @@ const prelude = `(set-option :produce-models true)
 (define-fun wrap_s8 ((x Int)) Int (- (mod (+ x 128) 256) 128))
 (define-fun wrap_s16 ((x Int)) Int (- (mod (+ x 32768) 65536) 32768))
 (define-fun wrap_s32 ((x Int)) Int (- (mod (+ x 2147483648) 4294967296) 2147483648))
-(define-fun wrap_s64 ((x Int)) Int (- (mod (+ x 9223372036854775808) 18446744073709551616) 9223372036854775808))
+(define-fun wrap_s64 ((x Int)) Int (ite (and (<= (- 9223372036854775808) x) (<= x 9223372036854775807)) x (- (mod (+ x 9223372036854775808) 18446744073709551616) 9223372036854775808)))
 (define-fun tdiv ((a Int) (b Int)) Int (ite (>= a 0) (ite (> b 0) (div a b) (- (div a (- b)))) (ite (> b 0) (- (div (- a) b)) (div (- a) (- b)))))
 (define-fun tmod ((a Int) (b Int)) Int (- a (* b (tdiv a b))))
 `
